@@ -48,6 +48,9 @@ type Block struct {
 	File     string
 	Line     int
 	Parent   *Block
+	Writers  []string // `global` block: functions allowed to write the variable
+	Notes    []string // stated assumption behind a declaration
+	Effects  string   // "stdout": the function may write to standard output
 	PreShift map[string]int // handler twin: "v.pc" -> -1 (the contract's pre-state is the state before the fetch)
 }
 
@@ -58,12 +61,14 @@ type SpecFun struct {
 	Ret    string
 	Body   string // raw SMT (define) or "" (uninterpreted)
 	CBody  string // contract-expression body (for unfold)
+	Rec    bool   // recursive definition: applications stay uninterpreted, the body enters only through `unfold`
 }
 
 var clauseKw = map[string]bool{"props": true, "requires": true, "ensures": true, "fails_iff": true, "nopanic": true,
 	"pure": true, "trusted": true, "inline": true, "modifies": true, "uses": true, "loop": true, "opcase": true,
-	"assume": true, "unfold": true, "fresh": true, "let": true, "preserves": true, "abstract": true}
-var blockKw = map[string]bool{"iface": true, "functype": true, "func": true, "closure": true, "spec": true, "define": true, "axioms": true, "lemma": true}
+	"assume": true, "unfold": true, "fresh": true, "let": true, "preserves": true, "abstract": true,
+	"writers": true, "note": true, "effects": true}
+var blockKw = map[string]bool{"iface": true, "functype": true, "func": true, "closure": true, "global": true, "entry": true, "spec": true, "define": true, "rec": true, "axioms": true, "lemma": true}
 
 var labelRe = regexp.MustCompile(`^#([A-Za-z0-9_.\-]+)\s+`)
 var propTagRe = regexp.MustCompile(`^@(C[0-9]+(?:,C[0-9]+)*)\s+`)
@@ -87,6 +92,9 @@ func (P *Program) ParseContracts(mirrorDir, specDir string) error {
 		rel := strings.TrimPrefix(strings.TrimPrefix(path, ModPath), "/")
 		f := filepath.Join(P.RepoDir, rel, "zz_contracts_verif.go")
 		b, err := os.ReadFile(f)
+		if os.Getenv("GVC_CONTRACTS") == "mirror" {
+			err = os.ErrNotExist // development / self-test: use /verif/contracts even if the tree carries its own copy
+		}
 		if err != nil {
 			m := filepath.Join(mirrorDir, strings.ReplaceAll(ifEmpty(rel, "yae"), "/", "_")+".go")
 			b, err = os.ReadFile(m)
@@ -153,7 +161,7 @@ func (P *Program) ParseContracts(mirrorDir, specDir string) error {
 				lastSpec = nil
 				axgroup = ""
 				switch kw {
-				case "spec", "define":
+				case "spec", "define", "rec":
 					sf, err := parseSpecDecl(kw, rest)
 					if err != nil {
 						return fmt.Errorf("%s: %v", where, err)
@@ -173,6 +181,9 @@ func (P *Program) ParseContracts(mirrorDir, specDir string) error {
 						name = shortPkg(s.pkg) + "." + name
 					} else if s.pkg != "" && strings.HasPrefix(name, "(") {
 						name = shortPkg(s.pkg) + "." + name
+					}
+					if kw == "global" || kw == "entry" {
+						name = kw + " " + name
 					}
 					cur = &Block{Kind: kw, Name: name, PkgPath: s.pkg, Loops: map[int]*LoopSpec{}, File: s.file, Line: s.lnos[i]}
 					tgt = cur
@@ -260,6 +271,12 @@ func (P *Program) ParseContracts(mirrorDir, specDir string) error {
 					}
 				case "uses":
 					tgt.Uses = append(tgt.Uses, strings.Fields(rest)...)
+				case "writers":
+					tgt.Writers = append(tgt.Writers, strings.Fields(rest)...)
+				case "note":
+					tgt.Notes = append(tgt.Notes, rest)
+				case "effects":
+					tgt.Effects = strings.TrimSpace(rest)
 				case "loop":
 					f := strings.Fields(rest)
 					if len(f) < 3 {
@@ -392,7 +409,11 @@ func parseSpecDecl(kw, rest string) (*SpecFun, error) {
 	if i := strings.Index(tail, ":="); i >= 0 {
 		sf.Ret = strings.TrimSpace(tail[:i])
 		sf.CBody = strings.TrimSpace(tail[i+2:])
+		sf.Rec = kw == "rec"
 		return sf, nil
+	}
+	if kw == "rec" {
+		return nil, fmt.Errorf("rec needs := body: %q", rest)
 	}
 	i := strings.IndexByte(tail, '=')
 	if i < 0 {
